@@ -208,6 +208,14 @@ func (pl *emuPlan) tasks(r *vcore.Run, jd *emuJudge, stuck map[string]bool, hang
 	for _, c := range pl.cases {
 		c := c
 		d := pl.descs[c.Curve]
+		if c.Wide {
+			// not an element of the scalar type: executed without verdict, under a
+			// short watchdog of its own (the decomposition hints are not written
+			// for such inputs), not probed by the hint screen
+			ts = append(ts, task{fam: "emu", data: c, cost: emuCost[c.Op] * curveWeight(d.c.Name), watchdog: 90 * time.Second,
+				done: func(o outcome) { jd.judge(d, c, o) }})
+			continue
+		}
 		predicted := false
 		for _, p := range pl.hintInputs(c) {
 			if stuck[probeKey(p)] {
